@@ -13,7 +13,9 @@ RULE = ("Model-based TestResult histories (startTestRun, tags, time, startTest, 
         "trees of depth 1..3 over ExtendedToOriginalDecorator, MultiTestResult (2 targets), TestResultDecorator, "
         "Tagger, ThreadsafeForwardingResult and TestByTestResult leaves x five target flavours (2.6-style, "
         "2.7-style, extended, Twisted-style, real testtools.TestResult); every innermost target's log is compared "
-        "with the input history mapped through the documented degradation table. Also generated: err=/reason= by keyword, MultiTestResult of 1..3 results, tests sharing an id or reported again as the same object, one details dict object handed to several calls (the oracle compares against a private copy and checks the dict is left as it was), exact detail names, run-level call counts at the targets, the outermost adapter's own verdict. "
+        "with the input history mapped through the documented degradation table. Also generated: err=/reason= by keyword, MultiTestResult of 1..3 results, tests sharing an id or reported again as the same object, one details dict object handed to several calls (the oracle compares against a private, frozen copy taken at the call), no detail name missing and no extra detail that repeats what the reporter attached elsewhere, run-level call counts at the targets, the outermost adapter's own verdict (must be False as soon as one wrapped result that has to count a failing outcome of the current run says False). "
+        "Also: the content type (type, subtype, parameters) of every delivered detail at extended targets and in the TestByTestResult callback; a synthesised exc_info is a (type, instance of it, traceback) triple, also for an unexpected success (with or without details) turned into addFailure on a 2.6-style target; a supplied exc_info arrives as the same exception object; a test reported without details carries nobody else's; details= positionally; word-sized tags; contents that read longer at every call ('grow'). "
+        "Directed exhaustive grids: unexpected success with details x paths to a 2.6-style target; the same time() value before and after a new startTestRun x adapters over TestByTestResult; overlapping nested Taggers; wrapped results that disagree x the adapter's verdict; a growing log attached to three tests; positional details x adapter x outcome. "
         "Non-trivial: stack depth >= 2, or "
         "a degrading flavour, or the details->exception/reason fallback taken; distinct = distinct canonical "
         "(stack, history).")
@@ -23,6 +25,15 @@ ASSUMPTIONS = [
     "below a ThreadsafeForwardingResult the stop time / tags a TestByTestResult sees are those at the outcome "
     "(the forwarder replays the test at that moment)",
     "the verdict of 2.7-style / Twisted-style recorders after addUnexpectedSuccess is theirs; only delivery is asserted",
+    "any exception out of startTestRun / stopTestRun / tags / time / an outcome call is a violation: safe because every generated "
+    "stack gives each adapter a result it documents support for (see the first assumption)",
+    "an adapter may write to the details dict it was handed and may attach details of its own; an extra detail is only a "
+    "violation when its bytes repeat a detail the reporter attached (in any call) or another call's exception text",
+    "a reason / exc_info given as such to a target that takes it arrives unchanged (the reason equal, the exception the same "
+    "object, the triple possibly re-packed); only texts converted *from details* are held to 'contains the detail text' (stripped)",
+    "every generated adapter's wasSuccessful() is the conjunction of what it wraps (documented for MultiTestResult; the others delegate)",
+    "details may be passed positionally (addSuccess(test, d), addError(test, None, d)): the signatures of TestResult allow it",
+    "a synthesised exc_info may be any 3-sequence (a list is not reported)",
 ]
 
 FLAVOURS = ["py26", "py27", "ext", "twisted", "real"]
@@ -54,9 +65,33 @@ def node(depth, extended_only=False):
 
 STACK = st.one_of(node(1), node(2), node(3))
 HIST = H.s_history(max_tests=4, with_control=True, test_kinds=("case", "placeholder", "errorholder"), max_ops=26)
+# tags are words, not single characters (for a one-character tag set(tag) == {tag} hides any str-for-iterable slip)
+TAGMAP = {"t": "t", "u": "slow", "v": "db", "w": "w"}
+
+
+def long_tags(spec):
+    """The same case with the history's and the Taggers' tags renamed through TAGMAP (a new spec; JSON as before)."""
+    ren = lambda xs: sorted(TAGMAP.get(x, x) for x in xs)
+
+    def walk(n):
+        n = dict(n)
+        if n["a"] == "Tagger":
+            n["new"], n["gone"] = ren(n["new"]), ren(n["gone"])
+        if "child" in n:
+            n["child"] = walk(n["child"])
+        if "children" in n:
+            n["children"] = [walk(k) for k in n["children"]]
+        return n
+    ops = [dict(o, new=ren(o["new"]), gone=ren(o["gone"])) if o["op"] == "tags" else o for o in spec["history"]["ops"]]
+    return dict(spec, stack=walk(spec["stack"]), history=dict(spec["history"], ops=ops))
+
+
 CASE = st.fixed_dictionaries({"stack": STACK, "history": HIST,
                               # several tests may share an id (id_mod) and may be the very same object reported again (reuse)
-                              "id_mod": st.sampled_from([99, 99, 99, 2, 1]), "reuse": st.booleans(), "share_details": st.sampled_from([False, True, "refill"])})
+                              "id_mod": st.sampled_from([99, 99, 99, 2, 1]), "reuse": st.booleans(),
+                              "share_details": st.sampled_from([False, True, "refill", "grow"]),
+                              # details= by keyword, or positionally
+                              "details_pos": st.sampled_from([False, False, True])}).map(long_tags)
 
 
 def build(n, path, targets, tbts):
@@ -103,8 +138,10 @@ def build(n, path, targets, tbts):
         return t
     if a == "TBT":
         calls = []
-        r = real.TestByTestResult(lambda **kw: calls.append(dict(kw, _details_snap=None if kw["details"] is None else {
-            k: b"".join(c.iter_bytes()) for k, c in kw["details"].items()})))
+        r = real.TestByTestResult(lambda **kw: calls.append(dict(
+            kw,
+            _details_snap=None if kw["details"] is None else {k: b"".join(c.iter_bytes()) for k, c in kw["details"].items()},
+            _details_ct=None if kw["details"] is None else {k: ct_key(c.content_type) for k, c in kw["details"].items()})))
         tbts.append((r, calls, list(path)))
         return r
     if a == "ETOD":
@@ -141,6 +178,85 @@ def exc_text(err):
         return "<unprintable %r>" % e
 
 
+def ct_key(ct):
+    """A content type as its public attributes (not its repr, not its identity)."""
+    try:
+        return (ct.type, ct.subtype, dict(ct.parameters or {}))
+    except Exception as e:
+        return ("<no content type: %r>" % (e,), None, None)
+
+
+def growing_details(dspecs, tails):
+    """{name: Content} whose contents read as the generated chunks followed by whatever has been appended to the
+    content's tail list since (one list per content, collected in ``tails``)."""
+    from testtools.content import Content
+    from testtools.content_type import ContentType
+    out = {}
+    for name, d in dspecs.items():
+        a, b, params = H.CT_SPECS[d["ct"]]
+        tail = []
+        tails.append(tail)
+        out[name] = Content(ContentType(a, b, dict(params)), lambda chunks=list(d["chunks"]), tail=tail: iter(chunks + list(tail)))
+    return out
+
+
+def frozen(details):
+    """Contents that will always read as they read now (what the oracle compares against)."""
+    from testtools.content import Content
+    out = {}
+    for name, c in details.items():
+        data = b"".join(c.iter_bytes())
+        out[name] = Content(c.content_type, lambda data=data: [data])
+    return out
+
+
+class PosDetails:
+    """The reporter hands ``details`` over positionally (``addSuccess(test, d)``, ``addError(test, None, d)``)."""
+
+    def __init__(self, result):
+        self._result = result
+
+    def __getattr__(self, name):
+        m = getattr(self._result, name)
+        if name not in OUTCOMES:
+            return m
+
+        def call(test, *a, **kw):
+            if not a and set(kw) == {"details"}:
+                if name in ("addSuccess", "addUnexpectedSuccess"):
+                    return m(test, kw["details"])
+                return m(test, None, kw["details"])
+            return m(test, *a, **kw)
+        return call
+
+
+def exc_info_shaped(err):
+    """(type, value, traceback) with value an exception instance of that type; a list is as good as a tuple."""
+    try:
+        a, b, _ = err
+    except Exception:
+        return False
+    return isinstance(a, type) and isinstance(b, BaseException) and isinstance(b, a)
+
+
+def shape_of(err):
+    try:
+        return "%s(%s)" % (type(err).__name__, ", ".join(type(x).__name__ for x in err))
+    except Exception:
+        return type(err).__name__
+
+
+def same_exc_info(got, sent):
+    """The exc_info the reporter supplied: the identical triple, or a rebuilt one around the same exception object
+    (the statement does not forbid an adapter trimming the traceback or re-packing the triple)."""
+    if got is sent:
+        return True
+    try:
+        return len(got) == 3 and got[1] is sent[1]
+    except Exception:
+        return False
+
+
 def run_case(spec):
     vs = []
     targets, tbts = [], []
@@ -157,6 +273,11 @@ def run_case(spec):
     shared_details = {} if spec.get("share_details") else None     # one dict object per distinct set of attachments
     if spec.get("share_details") == "refill":
         shared_details = {"<refill>": {}}                          # ... or one dict for the whole history, refilled
+    # "grow": the same dict of the same Content objects goes to every outcome that carries details, and each content
+    # reads longer every time (a log that is still being written); the oracle's copy is frozen at the call
+    grow = {"dict": None, "tails": []} if spec.get("share_details") == "grow" else None
+    caller = PosDetails(r) if spec.get("details_pos") else r
+    all_times = {H.ts(o["t"]) for o in spec["history"]["ops"] if o["op"] == "time" and o["t"] is not None}
 
     def each_model(fn):
         for m in tbt_models:
@@ -200,11 +321,23 @@ def run_case(spec):
                 e["out_time"] = now
                 e["payload"] = op["payload"]
                 e["tbt_out"] = [frozenset(m.current) for m in tbt_models]
-                e["info"] = H.outcome_call(r, cur, op, shared=shared_details)
-                live_d = e["info"].get("details_live")
-                if live_d is not None and set(live_d) != set(e["info"]["details"]):
-                    vs.append(V("caller-args", "details-dict-mutated", "the details dict handed to %s has keys %r afterwards, was %r" % (
-                        H.METHOD[op["kind"]], sorted(live_d), sorted(e["info"]["details"]))))
+                if grow is not None and op["payload"].get("form") in ("details", "details+reasondetail"):
+                    if grow["dict"] is None and op["payload"]["details"]:
+                        grow["dict"] = growing_details(op["payload"]["details"], grow["tails"])
+                        grow["names"] = set(grow["dict"])
+                    elif grow["dict"] is not None:
+                        for tail in grow["tails"]:
+                            tail.append(b"+more%d" % n)
+                    if grow["dict"] is not None:
+                        shared_details[repr(sorted(op["payload"]["details"].items()))] = grow["dict"]
+                # the names this reporter itself attaches (a shared dict may come back with more, if an adapter wrote to it)
+                e["made_names"] = (set(grow["names"]) if grow is not None and grow["dict"] is not None else set(op["payload"].get("details") or ())) | (
+                    {"reason"} if op["payload"].get("form") == "details+reasondetail" else set())
+                e["info"] = H.outcome_call(caller, cur, op, shared=shared_details)
+                if e["info"]["details"] is not None:
+                    e["info"]["details"] = frozen(e["info"]["details"])
+                # (whether an adapter may touch the caller's dict is not part of the statement: what the dict held when
+                # it was handed over is what must arrive, and that is what the private copy records)
             elif k == "stopTest":
                 reported[-1]["tags_at_stop"] = frozenset(tags.current)
                 reported[-1]["stop"] = now
@@ -231,6 +364,20 @@ def run_case(spec):
                         "%s raised %r through stack %r" % (k, e, spec["stack"])))
             return Case(vs, True, ["raised"])
     reported = [e for e in reported if "kind" in e and "stop" in e]
+
+    def foreign(data, here):
+        """Do these bytes repeat something the reporter supplied (a detail of any call, the exception text of another
+        call)?  Empty contents are nobody's."""
+        if not isinstance(data, bytes) or not data.strip():
+            return False
+        for e_ in reported:
+            inf = e_.get("info") or {}
+            for name_, c_ in (inf.get("details") or {}).items():
+                if name_ in e_["made_names"] and b"".join(c_.iter_bytes()) == data:
+                    return True
+            if e_ is not here and inf.get("err") is not None and e_["marker"].encode() in data:
+                return True
+        return False
 
     for t, path, flavour in targets:
         evs = [e for e in t.events if e[0] in ("startTest", "stopTest") or e[0] in OUTCOMES]
@@ -269,10 +416,19 @@ def run_case(spec):
                             data = b"".join(c.iter_bytes())
                             if name not in det or det[name][2] != data:
                                 vs.append(V("richest-protocol", "detail-changed", "detail %r arrived as %r" % (name, det.get(name))))
-                        if set(det) != set(sent_details):
+                            elif ct_key(det[name][1]) != ct_key(c.content_type):
+                                vs.append(V("richest-protocol", "detail-content-type", "detail %r was sent as %r, arrived as %r" % (
+                                    name, ct_key(c.content_type), ct_key(det[name][1]))))
+                        if set(sent_details) - set(det):
                             vs.append(V("richest-protocol", "detail-names", "%s: details %r were sent, %r arrived" % (wname, sorted(sent_details), sorted(det))))
+                        for name in sorted(set(det) - set(sent_details)):
+                            # a detail of its own that an adapter attaches is not excluded by the statement; one that
+                            # carries what the reporter attached elsewhere (another call, another name) is a duplicate
+                            if foreign(det[name][2], e):
+                                vs.append(V("richest-protocol", "detail-names", "%s: details %r were sent, %r arrived; %r repeats content sent elsewhere" % (
+                                    wname, sorted(sent_details), sorted(det), name)))
                 elif info["err"] is not None:
-                    if ctx.get("err") is not info["err"] and not (ctx.get("details") and "traceback" in ctx["details"]):
+                    if not same_exc_info(ctx.get("err"), info["err"]) and not (ctx.get("details") and "traceback" in ctx["details"]):
                         vs.append(V("richest-protocol", "err-lost", "%s: exc_info not delivered" % wname))
                 elif info["reason"] is not None and wname == "addSkip":
                     got_reason = ctx.get("reason")
@@ -280,12 +436,25 @@ def run_case(spec):
                         got_reason = ctx["details"]["reason"][2].decode("utf8")
                     if got_reason != info["reason"]:
                         vs.append(V("richest-protocol", "reason", "skip reason %r arrived as %r" % (info["reason"], got_reason)))
+                if sent_details is None and ctx.get("details"):
+                    # nothing of another call rides along: no foreign detail, and the traceback (if the exc_info was
+                    # turned into one) is this call's
+                    for name in sorted(set(ctx["details"]) - {"traceback", "reason"}):
+                        if foreign(ctx["details"][name][2], e):
+                            vs.append(V("richest-protocol", "detail-names", "%s: no details were sent, %r arrived and %r repeats content sent elsewhere" % (
+                                wname, sorted(ctx["details"]), name)))
+                    tb = ctx["details"].get("traceback")
+                    if tb is not None and info["err"] is not None and ctx.get("err") is None and isinstance(tb[2], bytes) and e["marker"].encode() not in tb[2]:
+                        vs.append(V("richest-protocol", "err-lost", "%s: the traceback detail does not mention this call's exception (%s)" % (wname, e["marker"])))
             else:
                 # degraded targets: details become a synthetic exception or a reason containing the text
-                if wname in ("addError", "addFailure", "addExpectedFailure") and e["kind"] != "uxsuccess":
+                if wname in ("addError", "addFailure", "addExpectedFailure"):
+                    # (an unexpected success that became addFailure on a 2.6-style target is held to the same clauses)
                     err = ctx.get("err")
                     if err is None:
                         vs.append(V("degrade", "no-err-" + flavour, "%s delivered without exc_info" % wname))
+                    elif not exc_info_shaped(err):
+                        vs.append(V("degrade", "exc-info-shape-" + flavour, "%s received %s, not a (type, instance of it, traceback) triple" % (wname, shape_of(err))))
                     elif sent_details is not None:
                         fallback = True
                         text = exc_text(err)
@@ -294,14 +463,18 @@ def run_case(spec):
                                 want_text = c.as_text().strip()
                                 if want_text and want_text not in text:
                                     vs.append(V("degrade", "detail-text-missing-" + flavour, "text of detail %r (%r) not in the synthetic exception %r" % (name, want_text, text)))
-                    elif err is not info["err"]:
+                    elif info["err"] is not None and not same_exc_info(err, info["err"]):
                         vs.append(V("degrade", "err-replaced-" + flavour, "%s: exc_info replaced" % wname))
                 if wname == "addSkip":
                     reason = ctx.get("reason")
                     if info["reason"] is not None:
                         if sent_details is not None:
+                            # the reason was one of the details: "a reason whose text contains the detail text"
                             fallback = True
-                        if reason != info["reason"]:
+                            if not isinstance(reason, str) or info["reason"].strip() not in reason:
+                                vs.append(V("degrade", "skip-reason-" + flavour, "skip reason %r arrived as %r" % (info["reason"], reason)))
+                        elif reason != info["reason"]:
+                            # handed over as a reason to a target that takes reasons: nothing to degrade
                             vs.append(V("degrade", "skip-reason-" + flavour, "skip reason %r arrived as %r" % (info["reason"], reason)))
                     elif sent_details is not None:
                         fallback = True
@@ -330,25 +503,23 @@ def run_case(spec):
         if (bad_after or (bad and not resets)) and t.wasSuccessful():
             vs.append(V("verdict", "failing-became-passing-" + flavour, "history has a failing outcome but target %s behind %r says wasSuccessful()" % (flavour, path)))
 
-    # the verdict asked of the outermost adapter itself
+    # the verdict asked of the outermost adapter itself: every generated adapter is a conjunction of what it wraps
+    # (MultiTestResult documents "only True if every constituent result was successful", the others delegate), so once a
+    # failing outcome of the current run has reached a wrapped result that has to count it, the adapter must not say True
     if targets and not vs:
         ops_ = spec["history"]["ops"]
         last_start_ = max([i for i, o in enumerate(ops_) if o["op"] == "startTestRun"] or [-1])
-
-        def must_fail(flavour):
-            badk = lambda o: o["op"] == "outcome" and (o["kind"] in ("error", "failure") or (o["kind"] == "uxsuccess" and flavour in ("py26", "ext", "real", "py27")))
-            reported_ids = {id(e) for e in reported}
-            return any(badk(o) for o in ops_[last_start_ + 1:]) and all(id(e) in reported_ids for e in reported)
-        if all(must_fail(f) for _, _, f in targets) and all("kind" in e for e in reported):
-            # every wrapped result has been given a failing outcome since its last startTestRun
-            completed_bad = any(e["kind"] in ("error", "failure") for e in reported[-1:]) or True
+        kinds_since = {o["kind"] for o in ops_[last_start_ + 1:] if o["op"] == "outcome"}
+        obliged = [(t, f) for t, _, f in targets
+                   if kinds_since & {"error", "failure"} or ("uxsuccess" in kinds_since and f in ("py26", "ext", "real", "py27"))]
+        if obliged and all(t.wasSuccessful() is False for t, _ in obliged):
             try:
                 verdict = r.wasSuccessful()
             except AttributeError:
                 verdict = None
-            bad_done = [o for o in ops_[last_start_ + 1:] if o["op"] == "outcome" and o["kind"] in ("error", "failure")]
-            if verdict is True and bad_done and all(t.wasSuccessful() is False for t, _, _ in targets):
-                vs.append(V("verdict", "adapter-says-successful", "every wrapped result says wasSuccessful() False, the outermost adapter of %r says True" % (spec["stack"],)))
+            if verdict is True:
+                vs.append(V("verdict", "adapter-says-successful", "wrapped result(s) %r say wasSuccessful() False after a failing outcome, the outermost adapter of %r says True" % (
+                    sorted({f for _, f in obliged}), spec["stack"])))
 
     for r_, calls, path in tbts:
         under_tsfr = "TSFR" in path
@@ -374,7 +545,7 @@ def run_case(spec):
             else:
                 # without an explicit time() in force the clock is the wall clock, not some earlier run's value
                 for which, supplied, got in (("start", e["start"], c["start_time"]), ("stop", e["stop"], c["stop_time"])):
-                    if supplied is None and not under_tsfr and got.year < 2020:
+                    if supplied is None and not under_tsfr and got in all_times:
                         vs.append(V("test-by-test", "stale-%s-time" % which, "%s_time is %r although no time() value was in force (a new run started since the last one)" % (which, got)))
             # tags: the reporter's tags at stopTest after the per-test changes of the Taggers on the path
             idx = [x[0] for x in tbts].index(r_)
@@ -384,13 +555,22 @@ def run_case(spec):
                 vs.append(V("test-by-test", "tags", "tags %r, expected %r (path %r)" % (sorted(c["tags"]), sorted(want_tags), path)))
             info = e["info"]
             det = c["_details_snap"]
-            if info["details"] is not None and det is not None and set(det) - set(info["details"]) - {"traceback", "reason"}:
-                vs.append(V("test-by-test", "details-extra", "details %r were sent, the callback got %r" % (sorted(info["details"]), sorted(det))))
+            expected_names = set(info["details"] or ()) | ({"traceback"} if info["err"] is not None else set()) | (
+                {"reason"} if e["kind"] == "skip" else set())
+            for name in sorted(set(det or ()) - expected_names):
+                # (as at the extended targets: an adapter's own note is tolerated, content of another call is not; a
+                # test reported without details or exc_info must not carry the previous test's)
+                if foreign(det[name], e):
+                    vs.append(V("test-by-test", "details-extra", "details %r were sent, the callback got %r; %r repeats content sent elsewhere" % (
+                        sorted(info["details"] or ()), sorted(det), name)))
             if info["details"] is not None:
                 for name, cont in info["details"].items():
                     data = b"".join(cont.iter_bytes())
                     if det is None or det.get(name) != data:
                         vs.append(V("test-by-test", "details", "detail %r arrived as %r" % (name, None if det is None else det.get(name))))
+                    elif c["_details_ct"][name] != ct_key(cont.content_type):
+                        vs.append(V("test-by-test", "details-content-type", "detail %r was sent as %r, the callback got %r" % (
+                            name, ct_key(cont.content_type), c["_details_ct"][name])))
             if info["err"] is not None:
                 if det is None or not any(e["marker"].encode() in v for v in det.values()):
                     vs.append(V("test-by-test", "traceback", "no traceback detail with marker %s: %r" % (e["marker"], det and sorted(det))))
@@ -405,6 +585,130 @@ def run_case(spec):
                 {"tests": len(reported)})
 
 
+# ------------------------------------------------------------------ directed grids (corners the random histories reach too rarely)
+def _t(flavour):
+    return {"a": "target", "flavour": flavour}
+
+
+_TBT = {"a": "TBT"}
+
+
+def _over(adapter, child, new=(), gone=()):
+    if adapter == "Multi":
+        return {"a": "Multi", "children": [child]}
+    if adapter == "Tagger":
+        return {"a": "Tagger", "child": child, "new": sorted(new), "gone": sorted(gone)}
+    return {"a": adapter, "child": child}
+
+
+def _case(stack, ops, **kw):
+    return dict({"stack": stack, "history": {"ops": ops}, "id_mod": 99, "reuse": False, "share_details": False, "details_pos": False}, **kw)
+
+
+def _test(i, kind="success", payload=None, tk="case", before_stop=()):
+    return [{"op": "startTest", "i": i, "tk": tk},
+            {"op": "outcome", "kind": kind, "marker": i + 1, "payload": payload or {"form": "none", "details": {}}}] + list(before_stop) + [{"op": "stopTest"}]
+
+
+def _enum_uxsuccess_details():
+    """An unexpected success carrying details, over every way of reaching a 2.6-style target (it becomes addFailure:
+    the text of the details has to be in the synthetic exception)."""
+    stacks = [_over("ETOD", _t("py26")), _over("Multi", _t("py26")), _over("TSFR", _t("py26")),
+              {"a": "Multi", "children": [_t("py26"), _t("ext")]}, {"a": "Multi", "children": [_TBT, _t("py26")]},
+              _over("ETOD", _over("ETOD", _t("py26"))), _over("Decorator", {"a": "Multi", "children": [_t("py26")]})]
+    dets = [{"log": {"ct": 0, "chunks": [b"IMPORTANT-LOG-TEXT"]}},
+            {"traceback": {"ct": 2, "chunks": [b"Traceback (most recent call last):\n", b"  boom\n"]}, "x": {"ct": 3, "chunks": [b"\xff\x00"]}}]
+    for stack in stacks:
+        for d in dets:
+            for tk in ("case", "placeholder"):
+                for pos in (False, True):
+                    yield _case(stack, _test(0, "uxsuccess", {"form": "details", "details": d}, tk=tk), details_pos=pos)
+
+
+def _enum_time_after_restart():
+    """time(t) ... startTestRun ... time(t): the second call carries a value the adapter has already seen, and the
+    target's clock was reset in between, so it has to be forwarded again."""
+    adapters = ["ETOD", "Multi", "TSFR", "Decorator", "Tagger"]
+    stacks = [_over(a, _TBT) for a in adapters] + [_over("TSFR", _over("ETOD", _TBT)), _over("Decorator", _over("Decorator", _TBT)),
+                                                  {"a": "Multi", "children": [_t("ext"), _TBT]}]
+    for stack in stacks:
+        for t in (5, 1004):
+            for first_run in (True, False):
+                ops = ([{"op": "startTestRun"}] if first_run else []) + [{"op": "time", "t": t}] + _test(0)
+                ops += ([{"op": "stopTestRun"}] if first_run else []) + [{"op": "startTestRun"}, {"op": "time", "t": t}]
+                ops += _test(1, before_stop=[{"op": "time", "t": t}]) + [{"op": "stopTestRun"}]
+                yield _case(stack, ops)
+
+
+def _enum_nested_taggers():
+    """Two Taggers whose tag sets overlap (the outer one has the last word), with and without the tag being current
+    in the run, one and two tests; multi-character tags."""
+    for outer, inner in ((("slow",), ()), ((), ("slow",))):
+        o_new, o_gone = outer, inner            # outer adds what the inner removes, or the other way round
+        for leaf in (_TBT, {"a": "Multi", "children": [_TBT, _t("ext")]}):
+            stack = _over("Tagger", _over("Tagger", leaf, new=o_gone, gone=o_new), new=o_new, gone=o_gone)
+            for run_tag in ((), ("slow",), ("db",)):
+                for ntests in (1, 2):
+                    ops = [{"op": "startTestRun"}] + ([{"op": "tags", "new": list(run_tag), "gone": []}] if run_tag else [])
+                    for i in range(ntests):
+                        ops += _test(i, before_stop=[{"op": "tags", "new": ["db"], "gone": []}] if i == 0 else [])
+                    yield _case(stack, ops)
+    # a single Tagger with a word for a tag, over every leaf kind that keeps tags
+    for leaf in (_TBT, _over("Decorator", _TBT)):
+        yield _case(_over("Tagger", leaf, new=("slow", "db"), gone=("w",)), [{"op": "tags", "new": ["w"], "gone": []}] + _test(0) + _test(1))
+
+
+def _enum_verdicts():
+    """Wrapped results that disagree about the run (an unexpected success over an extended and a Twisted-style
+    result; an error over anything): the adapter's own verdict is the conjunction."""
+    pairs = [("ext", "twisted"), ("twisted", "ext"), ("real", "twisted"), ("py26", "twisted"), ("py27", "ext"), ("ext", "real")]
+    for a, b in pairs:
+        multi = {"a": "Multi", "children": [_t(a), _t(b)]}
+        for stack in (multi, _over("ETOD", multi), _over("TSFR", multi), {"a": "Multi", "children": [_t(a), _TBT, _t(b)]}):
+            for kind in ("uxsuccess", "error", "failure"):
+                payload = {"form": "none", "details": {}} if kind == "uxsuccess" else {"form": "err", "details": {}, "exc": "ValueError", "call": "pos"}
+                for run in (False, True):
+                    ops = ([{"op": "startTestRun"}] if run else []) + _test(0, kind, payload) + _test(1)
+                    yield _case(stack, ops)
+
+
+def _enum_growing_log():
+    """The same Content objects attached to three tests in a row, reading longer each time (a log file still being
+    written): each conversion to an exception / a reason has to read them again."""
+    stacks = [_over("ETOD", _t(f)) for f in ("py26", "py27", "twisted")] + [
+        {"a": "Multi", "children": [_t("py27"), _t("ext")]}, _over("TSFR", _t("twisted")), {"a": "Multi", "children": [_TBT, _t("py26")]},
+        _over("ETOD", _over("ETOD", _t("py27")))]
+    d = {"log": {"ct": 0, "chunks": [b"first line\n"]}, "traceback": {"ct": 2, "chunks": [b"Traceback: boom"]}}
+    for stack in stacks:
+        for kind in ("error", "failure", "xfail", "skip", "uxsuccess", "success"):
+            ops = []
+            for i in range(3):
+                ops += _test(i, kind, {"form": "details", "details": d, "reason": "", "call": "pos", "exc": "ValueError"})
+            yield _case(stack, ops, share_details="grow")
+
+
+def _enum_positional_details():
+    """details handed over positionally, one call per outcome kind, through each adapter."""
+    stacks = [_over("ETOD", _t("ext")), _over("ETOD", _t("py27")), _over("Multi", _t("ext")), _over("TSFR", _t("real")),
+              _over("Decorator", _t("ext")), _over("Tagger", _t("ext"), new=("slow",)), _over("Decorator", _TBT)]
+    d = {"log": {"ct": 0, "chunks": [b"positional"]}}
+    for stack in stacks:
+        for kind in H.KINDS:
+            yield _case(stack, _test(0, kind, {"form": "details", "details": d, "reason": "", "call": "pos", "exc": "ValueError"}), details_pos=True)
+
+
 def subchecks(tier):
     q = tier == "quick"
-    return [Sub("adapter_stacks", run_case, CASE, 2500 if q else 160000)]
+    return [Sub("adapter_stacks", run_case, CASE, 2500 if q else 160000),
+            Sub("uxsuccess_details_to_26_grid", run_case, enum=_enum_uxsuccess_details, enum_complete=True,
+                note="unexpected success with details x every path to a 2.6-style target"),
+            Sub("time_after_restart_grid", run_case, enum=_enum_time_after_restart, enum_complete=True,
+                note="the same time() value before and after a new startTestRun x every adapter over TestByTestResult"),
+            Sub("nested_taggers_grid", run_case, enum=_enum_nested_taggers, enum_complete=True,
+                note="overlapping Taggers, word-sized tags"),
+            Sub("verdict_grid", run_case, enum=_enum_verdicts, enum_complete=True,
+                note="wrapped results that disagree about the run"),
+            Sub("growing_log_grid", run_case, enum=_enum_growing_log, enum_complete=True,
+                note="one set of Content objects, longer at every read, attached to three tests"),
+            Sub("positional_details_grid", run_case, enum=_enum_positional_details, enum_complete=True,
+                note="details as a positional argument x adapter x outcome kind")]
